@@ -316,12 +316,22 @@ def bounded_gaussian_density(S):
     S.claim('negative_sd_rejected', r3)
 
 
-def _bg_sample(S, size):
+def _bg_sample(S, size, kind='finite'):
     mu, sd, lb, ub = S.real('mu'), S.real('sd', pos=True), S.real('lb'), S.real('ub')
-    S.assume(lb <= mu)
-    S.assume(mu <= ub)
-    S.assume(lb < ub)
-    rnd = _setup(S, redraw_in=(lb, ub))
+    inf = float('inf')
+    if kind == 'lower':
+        ub = inf
+        S.assume(lb <= mu)
+        rnd = _setup(S, redraw_in=(lb, mu + 1))
+    elif kind == 'upper':
+        lb = -inf
+        S.assume(mu <= ub)
+        rnd = _setup(S, redraw_in=(mu - 1, ub))
+    else:
+        S.assume(lb <= mu)
+        S.assume(mu <= ub)
+        S.assume(lb < ub)
+        rnd = _setup(S, redraw_in=(lb, ub))
     bg = BoundedGaussian(mu, sd, lb, ub)
     smp = bg.sample(size)
     S.claim('shape', (np.shape(smp) == ()) if size is None else (np.shape(smp) == (size,)))
@@ -348,6 +358,28 @@ def bg_sample_none(S):
             stubs=['numpy.random.normal (contract stub; after 2 rejected rounds it returns in-range values)'])
 def bg_sample_1(S):
     _bg_sample(S, 1)
+
+
+@obligation('C14.bounded_gaussian.sample_half_infinite', functions=BGS, max_paths=400,
+            bounds='sample(size) for size in {None, 1, 2} with bounds (lb, +inf) and (-inf, ub): samples in support',
+            stubs=['numpy.random.normal (contract stub; after 2 rejected rounds it returns in-range values)'])
+def bg_sample_half(S):
+    kind = 'lower'
+    _bg_sample(S, 2, 'lower')
+
+
+@obligation('C14.bounded_gaussian.sample_half_infinite_upper', functions=BGS, max_paths=400,
+            bounds='sample(size=None) and sample(1) with bounds (-inf, ub): samples in support',
+            stubs=['numpy.random.normal (contract stub; after 2 rejected rounds it returns in-range values)'])
+def bg_sample_half_upper(S):
+    _bg_sample(S, 1, 'upper')
+
+
+@obligation('C14.bounded_gaussian.sample_half_infinite_none', functions=BGS, max_paths=400,
+            bounds='sample(size=None) with bounds (lb, +inf): sample in support',
+            stubs=['numpy.random.normal (contract stub; after 2 rejected rounds it returns in-range values)'])
+def bg_sample_half_none(S):
+    _bg_sample(S, None, 'lower')
 
 
 @obligation('C14.bounded_gaussian.sample_2', functions=BGS, max_paths=400, cost=3,
